@@ -458,9 +458,27 @@ class Linker:
         # A wrong situation occurs, when reducing the image by small amount
         # of bytes. Locations that were aligned before, might become unaligned.
 
+        # The distances measured here change when code shrinks. Within one
+        # memory image everything moves towards the start of the image, so
+        # a jump can only get longer by the padding that keeps the sections
+        # after the removed bytes aligned. A jump to another image or to an
+        # absolute symbol grows by all bytes removed in front of it, these
+        # jumps are left alone.
+        image_of = {}
+        for image in self.dst.images:
+            for section in image.sections:
+                image_of[section.name] = image.name
+        slack = sum(s.alignment for s in self.dst.sections if s.alignment > 2)
+        slack += slack % 2
+
         # First, determine the list of possible optimizations!
         lst = []
         for relocation in self.dst.relocations:
+            symbol = self.dst.symbols_by_id[relocation.symbol_id]
+            if symbol.section is None or image_of.get(
+                symbol.section
+            ) != image_of.get(relocation.section):
+                continue
             sym_value = self.get_symbol_value(relocation.symbol_id)
             reloc_section = self.dst.get_section(relocation.section)
             reloc_value = reloc_section.address + relocation.offset
@@ -468,7 +486,10 @@ class Linker:
             reloc = rcls(
                 None, offset=relocation.offset, addend=relocation.addend
             )
-            if reloc.can_shrink(sym_value, reloc_value):
+            if all(
+                reloc.can_shrink(sym_value + margin, reloc_value)
+                for margin in (-slack, 0, slack)
+            ):
                 # Apply code patching:
                 begin = relocation.offset
                 size = reloc.size()
@@ -605,17 +626,24 @@ class Linker:
         for image in self.dst.images:
             delta = 0
             for section in image.sections:
+                # Move the section down by the bytes removed before it, but
+                # not further than its alignment permits:
+                new_address = section.address - delta
+                if section.address % section.alignment == 0:
+                    while new_address % section.alignment != 0:
+                        new_address += 1
                 self.logger.debug(
-                    "sectororchanging %s at %08x with -%08x to %08x",
+                    "section %s moves from %08x to %08x",
                     section.name,
                     section.address,
-                    delta,
+                    new_address,
                 )
-                # TODO: tricky stuff might go wrong here with alignment
-                # requirements of sections.
-                # Idea: re-do the layout phase?
-                section.address -= delta
-                delta += section_changes[section.name]
+                delta = (
+                    section.address
+                    - new_address
+                    + section_changes[section.name]
+                )
+                section.address = new_address
 
     def do_relocations(self):
         """Perform the correct relocation as listed"""
